@@ -186,6 +186,15 @@ def plan(chk):
         e = rng.choice([None, s + 1 + rng.randint(0, T + 1)])
         specs.append({"case": "case", "coin": rng.choice(coins), "T": T, "s": s, "e": e, "seed": chk.seed + i, "base": base,
                       "verify": rng.random() < 0.5, "n": n})
+    # windows that cross a round height (a clean-up "every 10,000 blocks", a table sized 2^16, a halving interval): sparse index again
+    rounds = [1000, 4096, 10000, 20000, 30000, 50000, 65536, 100000, 131072, 200000, 250000, 420000, 500000, 10**6, 2**20, 2**21, 3 * 10**6, 2**22]
+    if not chk.thorough:
+        rounds = [10000, 65536, 100000] + rng.sample([r for r in rounds if r not in (10000, 65536, 100000)], 6)
+    for i, R in enumerate(rounds):
+        for s, e in ((R - 2, None), (R - 1, R + 1), (R, None)) if chk.thorough else (((R - 2, None), (R, R + 2)) if i % 2 else ((R - 1, R + 1),)):
+            n += 1
+            specs.append({"case": "case", "coin": coins[n % len(coins)], "T": 5, "s": s, "e": e, "seed": chk.seed + i, "base": R - 2,
+                          "verify": (n % 2 == 0), "n": n})
     return specs
 
 
